@@ -59,7 +59,7 @@ func genC05(seed uint64) *Plan {
 	pr := DefaultProfile()
 	pr.ImportKinds = []string{"accept", "rejectsome", "rewrite", "rewrite"}
 	pr.AddPathRXProb = 0.4
-	pr.W = map[string]int{"announce": 10, "withdraw": 4, "wait": 1, "peer_close": 1, "peer_notify": 1, "reconnect": 2}
+	pr.W = map[string]int{"announce": 10, "withdraw": 4, "wait": 1, "peer_notify": 2, "reconnect": 2}
 	pr.ReconnectProb = 0.7
 	g := newGen("C05", seed, pr)
 	g.connectAll()
